@@ -70,9 +70,12 @@ def gen_case(rng, tier, idx):
     members = []
     for _ in range(rng.randint(1, 3)):
         c = copy.deepcopy(rng.choice(ZERO_BIASED)) if rng.random() < 0.7 else configs.rand_config(rng, max_period=6, allow_input=False)
-        if rng.random() < 0.35:
+        r_ = rng.random()
+        if r_ < 0.35:
             s = (tf_s or step) * rng.choice([2, 3])
             c["kw"]["timeframe"] = f"S{s}" if s % 60 else (f"T{s // 60}" if s % 3600 else f"H{s // 3600}")
+        elif r_ < 0.5 and tf:
+            c["kw"]["timeframe"] = tf.upper()  # explicitly the Hexital-level timeframe: a separate manager next to members that inherit it
         members.append(c)
     prog = []
     left = n - 2
